@@ -358,6 +358,10 @@ def make_world(seed: int, wi: int, layout: str, variant: int) -> dict:
     return G.gen_world(rng, layout, **opts)
 
 
+def case_base(wi: int, layout: str, variant: int, seq: Any) -> dict:
+    return {'kind': 'world', 'world': wi, 'layout': layout, 'variant': variant, 'touch': seq, 'sample': False}
+
+
 def sequences(rng, n_pairs: int, n_random: int, all_pairs: bool) -> List[List[str]]:
     views = G.VIEWS
     seqs: List[List[str]] = [[]]
@@ -442,6 +446,18 @@ def main(run, shard=(0, 1)) -> None:
                         run.count('cases_on_worlds_with_dups')
                     run.count('subsets_' + ('empty' if not seq else 'single' if len(seq) == 1 else 'pair' if len(seq) == 2 else 'k'))
             os.unlink(wpath)
+            # ---- the same world without an entity lump at all (a file some tools write): every sequence again
+            if wi % 3 == 1:
+                W2 = dict(W, no_ent_lump=True)
+                with open(wpath, 'wb') as f:
+                    f.write(G.build_file(W2))
+                inp2 = Input(f'{layout}#{wi}-noents', wpath, W2, dict(desc, no_ent_lump=True))
+                for cidx, seq in todo[:4]:
+                    if seq is None:
+                        continue
+                    run_case(run, inp2, seq, tmp, 'synth-noents', dict(case_base(wi, layout, variant, seq), no_ent_lump=True), own)
+                    run.count('cases_without_an_entity_lump')
+                os.unlink(wpath)
         # ---- the sample BSP of the test-suite (large entity lump: few sequences)
         seed_inp = Input('rot_main.bsp', SEED_BSP, None, {'file': 'tests/test_vec/rot_main.bsp'})
         srng = sub_rng(run.seed, 'seedfile', 0)
@@ -464,7 +480,7 @@ def main(run, shard=(0, 1)) -> None:
                                   'BSP._lmp_write_water_leaf_info', 'BSP._lmp_write_faces', 'BSP._lmp_write_props',
                                   'BSP._lmp_write_detail_props', 'BSP._lmp_write_bmodels', 'BSP._lmp_write_visibility'])
     run.require('saves_attempted', 'cycles_completed', 'in_place_saves_after_a_second_touch', 'read_side_checks', 'subsets_empty', 'subsets_single', 'subsets_pair',
-                'subsets_k', 'seed_file_cases', 'worlds_with_dups', 'cases_on_worlds_with_dups')
+                'subsets_k', 'seed_file_cases', 'worlds_with_dups', 'cases_on_worlds_with_dups', 'cases_without_an_entity_lump')
 
 
 def replay(run, data) -> None:
@@ -478,6 +494,8 @@ def replay(run, data) -> None:
             inp = Input('rot_main.bsp', SEED_BSP, None, {})
         else:
             W = make_world(run.seed, case['world'], case['layout'], case['variant'])
+            if case.get('no_ent_lump'):
+                W = dict(W, no_ent_lump=True)
             wpath = os.path.join(tmp, 'w.bsp')
             with open(wpath, 'wb') as f:
                 f.write(G.build_file(W))
@@ -493,4 +511,4 @@ def replay(run, data) -> None:
 
 
 # (kept at the end of the file so that the text above stays the description the check was first built to)
-RULE += ' ' + 'Later additions: after the cycle, the same object touches two further views and is saved in place (save() without a file name) - the parsed content must still be the original; entity keys that need escaping.'
+RULE += ' ' + 'Later additions: after the cycle, the same object touches two further views and is saved in place (save() without a file name) - the parsed content must still be the original; entity keys that need escaping. Every third world is also written without an entity lump at all and taken through the same read / touch / save cycles.'
